@@ -229,6 +229,8 @@ def main():
         cases = [rp['case']]
         tier = rp.get('tier', args.tier)
         seed = rp.get('seed', seed)
+        if 'hashseed' in rp:
+            os.environ['VERIF_HASHSEED'] = str(rp['hashseed'])
     else:
         tier = args.tier
         cases = mod.plan(tier, seed)
@@ -242,7 +244,7 @@ def main():
             cases = cases[:args.limit]
 
     env = dict(os.environ)
-    env['PYTHONHASHSEED'] = '0'
+    env['PYTHONHASHSEED'] = os.environ.get('VERIF_HASHSEED', '0')    # pycalphad results depend on it (set iteration order): fixed for replay, variable for sweeps
     env['KAWIN_VERIF_SCRATCH'] = scratch
     env['KAWIN_VERIF_TIER'] = tier
     env['MPLBACKEND'] = 'Agg'
@@ -356,7 +358,7 @@ def main():
         h = core.case_hash({'case': c, 'v': v['monitor'], 'm': v['mech']})
         path = os.path.join(rdir, h + '.json')
         with open(path, 'w') as f:
-            json.dump({'property': prop, 'tier': tier, 'seed': seed, 'case': c, 'violation': v}, f, indent=1)
+            json.dump({'property': prop, 'tier': tier, 'seed': seed, 'hashseed': env['PYTHONHASHSEED'], 'case': c, 'violation': v}, f, indent=1)
         replay_paths.append(path)
         lines.append('VIOLATION property=%s replay=%s monitor=%s mech=%s' % (prop, path, v['monitor'], json.dumps(v['mech'], sort_keys=True)))
 
